@@ -19,7 +19,9 @@ pub fn shapes(tier: Tier) -> Vec<(usize, usize)> {
   v
 }
 
-pub fn n_assign(tier: Tier) -> usize { tier.pick(2, 4) }
+pub fn n_assign(tier: Tier) -> usize { tier.pick(3, 6) }
+/// assignments that only exist for the float kinds (NaN and infinities, spelled through helper variables)
+pub fn special_assign(tier: Tier, assign: usize) -> bool { assign >= tier.pick(2, 4) }
 
 /// value pools: (lhs pool, rhs pool) per assignment, as source spellings
 pub fn pools(kind: &str, assign: usize) -> (Vec<String>, Vec<String>) {
@@ -41,6 +43,13 @@ pub fn pools(kind: &str, assign: usize) -> (Vec<String>, Vec<String>) {
       1 => (s(&["2", "-3", "2", "-1", "3", "-2"]), s(&["3", "2", "1", "5", "0", "-2"])),
       2 => (vec![max.text(), "0".into(), min.text(), "1".into(), max.text(), "-1".into()], vec!["1".into(), "0".into(), "-1".into(), max.text(), "0".into(), min.text()]),
       _ => (s(&["4", "-9", "6", "-8", "15", "20"]), s(&["2", "3", "-3", "-4", "5", "4"])),
+    };
+  }
+  if is_float(kind) && assign >= 100 {
+    // NaN and the infinities next to ordinary values, on both sides and against each other (helper variables nan / inf / ninf)
+    return match assign {
+      100 => (s(&["nan", "1.0", "inf", "2.0", "ninf", "0.0"]), s(&["2.0", "nan", "1.0", "inf", "3.0", "nan"])),
+      _ => (s(&["nan", "inf", "ninf", "inf", "0.0", "-1.0"]), s(&["nan", "inf", "inf", "ninf", "inf", "ninf"])),
     };
   }
   if is_float(kind) {
@@ -79,8 +88,8 @@ pub fn pools(kind: &str, assign: usize) -> (Vec<String>, Vec<String>) {
 pub fn canon_text(kind: &str, spelled: &str) -> String {
   if is_int(kind) { return Wide::parse(spelled).map(|w| w.text()).unwrap_or_default(); }
   match kind {
-    "f64" => crate::canon::f64_text(spelled.parse().unwrap()),
-    "f32" => crate::canon::f32_text(spelled.parse().unwrap()),
+    "f64" => crate::canon::f64_text(if spelled == "ninf" { f64::NEG_INFINITY } else { spelled.parse().unwrap() }),
+    "f32" => crate::canon::f32_text(if spelled == "ninf" { f32::NEG_INFINITY } else { spelled.parse().unwrap() }),
     "r64" => Frac::parse(spelled).map(|f| f.text()).unwrap_or_default(),
     "c64" => {
       // a+bi / a-bi
@@ -101,6 +110,11 @@ pub fn elem_canon(kind: &str, spelled: &str) -> Canon {
     "string" => Canon::Str(canon_text(kind, spelled)),
     _ => Canon::Num(kind.to_string(), canon_text(kind, spelled)),
   }
+}
+
+/// helper variables holding NaN and the infinities of a float kind (they cannot be spelled as literals)
+pub fn special_defs(kind: &str) -> Vec<String> {
+  vec!["zero := 0.0".to_string(), "one := 1.0".to_string(), "nan := zero / zero".into(), "inf := one / zero".into(), "ninf := (-one) / zero".into()]
 }
 
 pub fn define_scalar(name: &str, kind: &str, v: &str) -> String {
@@ -196,6 +210,7 @@ impl C01 {
   fn scalar_pair(&mut self, kind: &str, l: &str, r: &str, out: &mut WorkerOut) {
     if self.scalar.contains_key(&(kind.to_string(), ops_for(kind)[0].to_string(), l.to_string(), r.to_string())) { return; }
     let mut s = Session::new();
+    if [l, r].iter().any(|x| ["nan", "inf", "ninf"].contains(x)) { for d in special_defs(kind) { s.run(&d); } }
     let da = s.run(&define_scalar("a", kind, l));
     let db = s.run(&define_scalar("b", kind, r));
     for (n, op) in ops_for(kind).iter().enumerate() {
@@ -228,6 +243,7 @@ impl C01 {
   fn scalar_unary(&mut self, kind: &str, x: &str, out: &mut WorkerOut) {
     if self.scalar_un.contains_key(&(kind.to_string(), "-".to_string(), x.to_string())) { return; }
     let mut s = Session::new();
+    if ["nan", "inf", "ninf"].contains(&x) { for d in special_defs(kind) { s.run(&d); } }
     let da = s.run(&define_scalar("a", kind, x));
     for (n, op) in UNOPS.iter().enumerate() {
       let o = if da.is_value() { s.run(&format!("r{} := {}a", n, op)) } else { Outcome::Error("operand-define-failed".into()) };
@@ -260,11 +276,14 @@ impl UnitRunner for C01 {
     let kind = ALL_KINDS[(u % nk) as usize];
     let shp = shapes(self.tier);
     let (ls, rs) = (shp[li], shp[ri]);
-    let (lp, rp) = pools(kind, assign);
+    let special = special_assign(self.tier, assign);
+    if special && !is_float(kind) { return; }
+    let (lp, rp) = pools(kind, if special { 100 + assign - self.tier.pick(2, 4) } else { assign });
     let lv = fill(&lp, ls.0, ls.1);
     // rotate the rhs pool by one when shapes have different element counts so pairs keep differing
     let rv = fill(&rp, rs.0, rs.1);
     let mut s = Session::new();
+    if special { for d in special_defs(kind) { s.run(&d); } }
     let da = if ls == (0, 0) { define_scalar("a", kind, &lv[0]) } else { define_matrix("a", kind, &lv, ls.0, ls.1) };
     let db = if rs == (0, 0) { define_scalar("b", kind, &rv[0]) } else { define_matrix("b", kind, &rv, rs.0, rs.1) };
     let oa = s.run(&da);
